@@ -143,7 +143,8 @@ func runHistory(hist []int, srv *dohmem.Server, clock *time.Time) (out histResul
 			return dohmem.Answer{HTTPStatus: 400}
 		}
 		if servfail {
-			return dohmem.Answer{RCode: 2}
+			// SERVFAIL that nevertheless carries an answer section (a recursive resolver that failed half-way through a CNAME chain)
+			return dohmem.Answer{RCode: 2, Records: []dnsref.RR{{Name: name, Type: 5, Class: 1, TTL: 5, Fields: []dnsref.Field{dnsref.N("c.example")}}}}
 		}
 		if notauth {
 			return dohmem.Answer{RCode: 9} // a failure code outside the table of named errors
@@ -279,7 +280,7 @@ func HistWorker(tier string, shard, n int) {
 		func(idx int) workers.Result {
 			h := decode(idx)
 			// histories without any resolve are trivial
-			clock = time.Unix(1000, 0)
+			clock = time.Unix(1000, 700e6) // not on a whole second: expiry arithmetic must not depend on the phase of the clock
 			r := runHistory(h, srv, &clock)
 			res := workers.Result{Outcome: fmt.Sprintf("resolve-calls=%d", r.calls), Viol: r.viol, What: r.what, Replay: map[string]any{"history": names(h)}}
 			if idx%400009 == shard {
